@@ -166,7 +166,8 @@ def setup_event(sc):
                 grid=dict(i0=i0, i1=i1, j0=j0, j1=j1, dt=sc["dt"], dx=int(sc["dx"]), dy=int(sc["dy"]),
                           mask=[row[i0:i1] for row in M[j0:j1]]),
                 kill=sc["kill"], freeze=sc.get("freeze", []), killfarm=sc.get("killfarm", []), out=dict(ops=sc["ops"], numrec=sc["numrec"], sparse=sc["layout"] == "sparse", pvars=sc["pvars"]),
-                warm=bool(sc.get("warm")), vert=bool(sc.get("vert") or sc.get("wfield")), token=sc.get("token", 0))
+                warm=bool(sc.get("warm")), vert=bool(sc.get("vert") or sc.get("wfield")), token=sc.get("token", 0),
+                **({"init": sc["warm"]["init"], "warmidx": sc["warm"]["idx"]} if sc.get("warm") else {}))
 
 
 def write_release(sc, path):
@@ -197,7 +198,7 @@ def config(sc, work, plug=PLUG):
         ibm=dict(module=plug % "ibm", kill={int(s): [p for s2, p in sc["kill"] if s2 == s] for s, _ in sc["kill"]},
                  freeze={int(s): [p for s2, p in sc.get("freeze", []) if s2 == s] for s, _ in sc.get("freeze", [])},
                  killfarm={int(s): [p for s2, p in sc.get("killfarm", []) if s2 == s] for s, _ in sc.get("killfarm", [])}),
-        output=dict(module=plug % "output", filename=os.path.join(work, "out.nc"), output_period=sc["dt"] * sc["ops"],
+        output=dict(module=plug % "output", filename=os.path.join(work, sc.get("outname", "out.nc")), output_period=sc["dt"] * sc["ops"],
                     numrec=sc["numrec"], layout=sc["layout"], instance_variables=out_iv),
     )
     if sc["rev"]:
